@@ -199,6 +199,10 @@ func c11History(r *core.Run, ci int64) {
 		if i%3 == 1 {
 			conn.CloseErr = errCloseNotify
 		}
+		if i%2 == 0 {
+			// closing takes a moment: the slot of a connection must not be reusable before then
+			conn.CloseDelay = time.Duration(1+i%3) * time.Millisecond
+		}
 		conn.OnClose = func() {
 			openNow.Add(-1)
 			log.add(c11Event{Kind: "close", Conn: id})
@@ -408,11 +412,20 @@ func c11History(r *core.Run, ci int64) {
 		if healthPasses.Load() < start+need {
 			r.Inconclusive(fmt.Sprintf("health check did not complete %d passes", need))
 		} else {
+			// destructors run asynchronously (puddle) and a transport may take a moment to close:
+			// a connection that is being reaped gets a grace period, one that is not stays open
 			open := 0
-			for _, c := range conns {
-				if !c.Closed() {
-					open++
+			for wait := 0; wait < 3000; wait++ {
+				open = 0
+				for _, c := range conns {
+					if !c.Closed() {
+						open++
+					}
 				}
+				if open == 0 {
+					break
+				}
+				time.Sleep(time.Millisecond)
 			}
 			if open > 0 {
 				fail("idle-not-reaped", fmt.Sprintf("%d idle connection(s) past MaxConnIdleTime still open after %d completed health-check passes", open, need))
